@@ -266,6 +266,9 @@ void SSA::build_sa() {
 unsigned long SSA::locate_id(uchar *pattern, uint m) {
   ulong i = m - 1;
   uint c = pattern[i];
+  if (!alphabet[c]) {
+    return 0;
+  }
   uint sp = occ[c];
   uint ep = occ[c + 1] - 1;
   while (sp <= ep && i >= 1) {
@@ -286,6 +289,9 @@ unsigned long SSA::locateP(uchar *pattern, uint m, size_t *left, size_t *right,
                            size_t) { // elements
   ulong i = m - 1;
   uint c = pattern[i];
+  if (!alphabet[c]) {
+    return 0;
+  }
   unsigned long sp = occ[c];
   unsigned long ep = occ[c + 1] - 1;
   while (sp <= ep && i >= 1) {
@@ -313,6 +319,9 @@ unsigned long SSA::locate(uchar *pattern, uint m, size_t **occs) {
   }
   ulong i = m - 1;
   uint c = pattern[i];
+  if (!alphabet[c]) {
+    return 0;
+  }
   unsigned long sp = occ[c];
   unsigned long ep = occ[c + 1] - 1;
   while (sp <= ep && i >= 1) {
